@@ -8,7 +8,7 @@ import numpy as np
 from .. import contracts, gen, ref
 
 DECIDING = ["contract:permute_systems", "O2:product-form", "O3:inverse-undoes", "O4:row-only=P.X", "contract:swap",
-            "contract:permutation_operator", "O5:swap_operator", "O6:sparse=dense"]
+            "contract:permutation_operator", "O5:swap_operator", "O6:sparse=dense", "O1:omitted-dim"]
 RULE = ("cases = every permutation of n<=4 subsystems (random ones for n=5,6) x random independent row/column local "
         "dimensions in 1..4 x flags x dtype x memory layout x dim calling form, entries are unique ids; a signature is "
         "(monitor, kind, n, flags, rectangular?) and is non-trivial when the permutation is not the identity")
@@ -41,6 +41,8 @@ def cases(tier):
         out.append(("sparse", r))
     for r in range(30 if tier == "quick" else 600):
         out.append(("internal", r))
+    for d, n in ((4, 3), (5, 3), (6, 3), (3, 4), (7, 3), (2, 6), (3, 5), (10, 3)):
+        out.append(("nodim", d, n))
     if tier == "thorough":
         out.append(("suite", 0))
     return out
@@ -332,3 +334,27 @@ def _run_suite(ctx, spec, rng):
     from ..suiterun import run_suite_under_contract
 
     run_suite_under_contract(ctx, ['permute_systems', 'swap', 'permutation_operator'], "suite-under-contract")
+
+
+def _run_nodim(ctx, spec, rng):
+    """dim omitted: the local dimension is inferred as N ** (1/n), which is not exact in floating point for many (d, n)."""
+    from toqito.perms import permute_systems
+
+    _, d, n = spec
+    perm = [int(v) for v in rng.permutation(n)]
+    if perm == sorted(perm):
+        perm = perm[1:] + perm[:1]
+    mech = "crash:permute_systems:omitted-dim-inexact-root"
+    v = gen.unique_ids((d ** n,), "f")
+    for x in (v, v.reshape(-1, 1)):
+        res = ctx.call(permute_systems, x, perm, mech=mech)
+        if res is not ctx_failed():
+            ctx.check("O1:omitted-dim", np.array_equal(np.asarray(res).reshape(-1), ref.permute_vec(v, perm, [d] * n)), sig=("vec", d, n), nt=True,
+                      mech="permute_systems:omitted-dim-vector", detail={"d": d, "n": n, "perm": perm})
+    if d ** n <= 125:
+        m = gen.unique_ids((d ** n, d ** n), "i")
+        res = ctx.call(permute_systems, m, perm, mech=mech)
+        if res is not ctx_failed():
+            ctx.check("O1:omitted-dim", np.array_equal(res, ref.permute(m, perm, [d] * n, [d] * n)), sig=("mat", d, n), nt=True, mech="permute_systems:omitted-dim-matrix",
+                      detail={"d": d, "n": n, "perm": perm})
+    ctx.sample("O1:omitted-dim", {"d": d, "n": n, "root_as_float": (d ** n) ** (1 / n)})
